@@ -104,10 +104,15 @@ static void on_alarm(int) { static const char m[] = "E 0 0 HANG wallclock\n"; ev
 
 // ------------------------------------------------------------------ driver log capture
 extern "C" int __real_debug_message(const char *fmt, ...);
+static void sim_walk_now();
 extern "C" int __wrap_debug_message(const char *fmt, ...) {
   char msg[8192];
   va_list ap; va_start(ap, fmt); vsnprintf(msg, sizeof msg, fmt, ap); va_end(ap);
-  if (msg[0] == '@' && msg[1] == 'R' && msg[2] == ' ') { ev("R %s", msg + 3); S.stats["rec"]++; return 0; }
+  if (msg[0] == '@' && msg[1] == 'R' && msg[2] == ' ') {
+    ev("R %s", msg + 3); S.stats["rec"]++;
+    if (!strncmp(msg + 3, "WALK", 4)) sim_walk_now();   // structure walk requested from LPC (possibly in the middle of a hook)
+    return 0;
+  }
   for (char *p = msg; *p; p++) if (*p == '\n' || *p == '\r') *p = ' ';
   ev("D %s", msg);
   return 0;
@@ -212,6 +217,7 @@ struct EntryState {
   bool operator==(const EntryState &o) const { return !memcmp(this, &o, sizeof *this); }
 };
 static bool have_entry = false;
+static bool have_entry_any() { return true; }
 static EntryState entry_prev;
 static svalue_t *sp0; static control_stack_t *csp0;
 static int obstate(object_t *o) { return o ? 1 : 0; }  // never dereferenced: the driver may legitimately hold stale pointers here
@@ -229,9 +235,95 @@ static EntryState snapshot() {
   e.chb = obstate(current_heart_beat);
   return e;
 }
+
+// ------------------------------------------------------------------ C08: structure walker over the driver's object tables (opt c08_walk)
+static long c08_walk_on = 0;
+static long c08_reported = 0;
+static void c08_v(const char *what, const char *fmt, ...) {
+  if (c08_reported++ > 30) return;
+  char buf[400]; va_list ap; va_start(ap, fmt); vsnprintf(buf, sizeof buf, fmt, ap); va_end(ap);
+  ev("V C08.%s %s", what, buf);
+}
+extern "C" object_t **hashed_living;
+static void c08_walk() {
+  std::set<object_t *> live, dead;
+  std::set<std::string> names;
+  long n = 0;
+  for (object_t *o = obj_list; o; o = o->next_all) {
+    if (++n > 200000) { c08_v("objlist-cycle", "obj_list does not end"); return; }
+    if (!live.insert(o).second) { c08_v("objlist-cycle", "object /%s twice in obj_list", o->name); return; }
+    if (o->flags & O_DESTRUCTED) c08_v("destructed-in-objlist", "/%s is destructed but still in obj_list", o->name);
+    if (!o->name) { c08_v("noname", "object without name"); continue; }
+    if (!names.insert(o->name).second) c08_v("duplicate-name", "two live objects carry the name /%s", o->name);
+    if (lookup_object_hash(o->name) != o) c08_v("lookup-mismatch", "looking up /%s does not yield the live object carrying that name", o->name);
+    if (!o->prog) c08_v("noprog", "/%s has no program", o->name);
+  }
+  n = 0;
+  for (object_t *o = obj_list_destruct; o; o = o->next_all) {
+    if (++n > 200000) { c08_v("destlist-cycle", "obj_list_destruct does not end"); return; }
+    dead.insert(o);
+    if (!(o->flags & O_DESTRUCTED)) c08_v("live-in-destruct-list", "/%s is in obj_list_destruct without the destructed flag", o->name);
+    if (live.count(o)) c08_v("both-lists", "/%s is in both object lists", o->name);
+    if (o->super) c08_v("destructed-has-env", "destructed /%s still has an environment", o->name);
+    if (o->contains) c08_v("destructed-has-inv", "destructed /%s still has contents", o->name);
+    if (o->living_name) c08_v("destructed-living", "destructed /%s still has a living name", o->name);
+    if (o->interactive) c08_v("destructed-interactive", "destructed /%s still has a connection", o->name);
+    if (o->name && lookup_object_hash(o->name) == o) c08_v("destructed-found", "destructed /%s is still found by name", o->name);
+  }
+  // inventories: a forest that agrees with super
+  std::map<object_t *, int> seen_in;
+  for (object_t *o : live) {
+    long k = 0;
+    for (object_t *c = o->contains; c; c = c->next_inv) {
+      if (++k > 200000) { c08_v("inventory-cycle", "inventory chain of /%s does not end", o->name); break; }
+      if (!live.count(c)) { c08_v("inventory-dead", "inventory of /%s lists an object that is not live (%s)", o->name, (c->flags & O_DESTRUCTED) ? "destructed" : "unknown"); break; }
+      if (c->super != o) c08_v("inventory-super", "/%s is in the inventory of /%s but its environment is %s%s", c->name, o->name, c->super ? "/" : "", c->super ? c->super->name : "none");
+      if (++seen_in[c] > 1) c08_v("two-inventories", "/%s is listed in more than one inventory slot", c->name);
+    }
+  }
+  for (object_t *o : live) {
+    if (o->super) {
+      if (!live.count(o->super)) { c08_v("env-dead", "environment of /%s is not a live object", o->name); continue; }
+      if (!seen_in.count(o)) c08_v("env-not-listing", "/%s has environment /%s which does not list it", o->name, o->super->name);
+      long k = 0;
+      for (object_t *u = o->super; u; u = u->super) {
+        if (u == o || ++k > 100000) { c08_v("env-cycle", "/%s is (indirectly) inside itself", o->name); break; }
+        if (!live.count(u)) break;
+      }
+    } else if (seen_in.count(o)) c08_v("listed-without-env", "/%s is listed in an inventory but has no environment", o->name);
+    // sentences (add_action): the defining object must be live
+    long k = 0;
+    for (sentence_t *st = o->sent; st; st = st->next) {
+      if (++k > 100000) { c08_v("sentence-cycle", "sentence chain of /%s does not end", o->name); break; }
+      if (st->ob && !live.count(st->ob)) { c08_v("sentence-dead", "/%s carries a command defined by an object that is not live", o->name); break; }
+    }
+    if (o->interactive && o->interactive->ob != o) c08_v("interactive-mismatch", "/%s has a connection that belongs to another object", o->name);
+  }
+  // living names
+  int hs = CONFIG_INT(__LIVING_HASH_TABLE_SIZE__);
+  for (int i = 0; hashed_living && i < hs; i++) {
+    long k = 0;
+    for (object_t *o = hashed_living[i]; o; o = o->next_hashed_living) {
+      if (++k > 100000) { c08_v("living-cycle", "living hash chain does not end"); break; }
+      if (!live.count(o)) { c08_v("living-dead", "living hash lists an object that is not live"); break; }
+      if (!o->living_name) c08_v("living-noname", "/%s is in the living hash without a living name", o->name);
+    }
+  }
+  for (int i = 0; all_users && i < max_users; i++) {
+    interactive_t *ip = all_users[i];
+    if (!ip) continue;
+    if (!ip->ob || !live.count(ip->ob)) { if (!(ip->iflags & NET_DEAD)) c08_v("user-dead", "connection slot %d belongs to an object that is not live", i); }
+    else if (ip->ob->interactive != ip) c08_v("user-mismatch", "connection slot %d and /%s do not point at each other", i, ip->ob->name);
+  }
+  S.stats["c08_walks"]++;
+  S.stats["c08_objects_walked"] += (long)live.size();
+}
+
+static void sim_walk_now() { if (c08_walk_on) c08_walk(); }
 void dump_users(const char *when);
 static long dump_users_every = 0;
 void invariants_at_cycle() {
+  if (c08_walk_on && have_entry_any()) c08_walk();
   if (dump_users_every && have_entry) dump_users("cycle");
   if (!have_entry) { sp0 = sp; csp0 = csp; }
   EntryState e = snapshot();
@@ -362,6 +454,7 @@ int sim_main_run(const Plan &plan) {
   S.elig_on = !fault_only_prefix.empty();
   dump_users_every = plan.optl("dump_users", 0);
   c04_monitor = plan.optl("c04_monitor", 0); c04_reported = 0;
+  c08_walk_on = plan.optl("c08_walk", 0); c08_reported = 0;
   kernel_reset();
   __sanitizer_set_death_callback(on_death);
   signal(SIGALRM, on_alarm);
